@@ -48,6 +48,10 @@ Inductive expr :=
 | EPostDec (x : string)
 | EPreDec (x : string).
 
+(* an argument of a call: a value; the address of an int local (&x); or a pointer parameter p of the
+   caller handed on (the cell it points to is the caller's pseudo-variable "*p") *)
+Inductive carg := AVal (e : expr) | AAddr (x : string) | AFwd (p : string).
+
 Inductive stmt :=
 | SSkip
 | SExpr (e : expr)
@@ -56,7 +60,8 @@ Inductive stmt :=
 | SIf (c : expr) (a b : stmt)
 | SWhile (c : expr) (body : stmt)
 | SReturn (e : expr)
-| SBreak.
+| SBreak
+| SCall (ret : option string) (g : string) (args : list carg).   (* x = g(args): only ImpCall.execE runs it *)
 
 Record state := { vars : list (string * val); inb : list Z; outb : list Z }.
 
@@ -380,6 +385,7 @@ Fixpoint exec (fuel : nat) (st : stmt) (s : state) : outcome :=
       end
     | SReturn e => match eval e s with Some (v, s1) => OReturn v s1 | None => OFault end
     | SBreak => OBreak s
+    | SCall _ _ _ => OFault          (* calls need the function table: ImpCall.execE *)
     end
   end.
 
